@@ -63,7 +63,7 @@ RULE = ('names: class name x 0-9 parameters drawn from ints, negative ints, bool
 REPO = '/repo'
 # which name function of Model/Names.lean the real get_component_unique_name is compared with:
 # 3 = uniqueName (the code as it is), 4 = uniqueNameR (after the proposed identifier-shape repair)
-UNIQ = 3
+UNIQ = 4
 FINDING = {
   'factory-same-name-different-body': 'F7-same-class-name-different-body',
   'two-modules-same-name-different-body': 'F7-same-class-name-different-body',
